@@ -23,7 +23,7 @@ ASSUMPTIONS = ["mutators are only issued in mode r+ here (read-only enforcement 
                "asraggedarray is not called with an empty iterable (no dtype/atom could be inferred)",
                "bool / NumPy-integer truncate indices are not generated"]
 EXHAUSTIVE = None
-MUST_HIT = (['trunc-removes-only-zero-length', 'trunc0-then-append', 'reopen-between-ops', 'zero-length-subarray', 'rejected-call',
+MUST_HIT = (['ops-inside-open-context', 'trunc-removes-only-zero-length', 'trunc0-then-append', 'reopen-between-ops', 'zero-length-subarray', 'rejected-call',
              'how:create', 'how:as', 'iter_arrays:ok', 'iter_arrays:raises', 'iter_arrays:step!=1', 'nonnative',
              'atomrank:0', 'atomrank:1', 'atomrank:2'] + [f'indextype:{t}' for t in rhist.INDEXTYPES])
 
